@@ -1,6 +1,7 @@
 """C19 — state feature mixins (Tags, Error, Volatile, Retry; add_state_features) keep their contracts on
 every machine class, in every order, per model, and leave everything else unchanged."""
 import json
+import os
 import random
 
 from .. import common, feat, runner
@@ -29,7 +30,21 @@ def judge(stream, d):
         info['results'][st['result']] = info['results'].get(st['result'], 0) + 1
 
     def add(kind, what, details):
-        fails.append(Failure(kind, what, case, details, signature='C19.' + what))
+        sig = 'C19.' + what
+        # narrow classifier of known finding F-C19-shared-tags-list (see known_findings.json)
+        if what == 'tags' and details.get('tag') == 'accepted' and details.get('expected') is False \
+                and feat.shared_accepted(d, details.get('state')):
+            sig = 'C19.shared-tags-list-accepted'
+        if what == 'error-iff' and details.get('expected_raise') is True and details.get('outcome') != 'raised' \
+                and feat.shared_accepted(d, details.get('state')):
+            sig = 'C19.shared-tags-list-accepted'
+        fails.append(Failure(kind, what, case, details, signature=sig))
+
+    if run.build_error:
+        add('monitor', 'construction', {'error': run.build_error, 'problem': 'a valid feature order with valid feature '
+                                        'arguments must yield a working machine class'})
+        info['nontrivial'] = False
+        return fails, info, run, None
 
     for what, details in feat.oracle_tags(d, run):
         add('monitor', what, details)
@@ -101,7 +116,7 @@ def run_cases(stream, descs):
         if req is not None:
             reqs.append(req)
             owners.append((n, 'trace'))
-        if 'Tags' in d['feats'] or 'Error' in d['feats']:
+        if ('Tags' in d['feats'] or 'Error' in d['feats']) and not run.build_error:
             for q in tags_requests(d):
                 reqs.append(q)
                 owners.append((n, 'tag'))
@@ -212,16 +227,24 @@ class C19(runner.Check):
             nch, per = cfg['quick'] if tier == 'quick' else cfg['thorough']
             payloads += [(seed, i, per, name) for i in range(nch)]
         ex = Exploration()
+        # corpus first (witnesses of known findings, minimised past disagreements)
+        cdir = os.path.join(common.CORPUS, self.prop)
+        for name in sorted(os.listdir(cdir)) if os.path.isdir(cdir) else []:
+            with open(os.path.join(cdir, name)) as fh:
+                case = json.load(fh)['case']
+            for fails, _info in run_cases(case['stream'], [case['desc']]):
+                ex.evaluations += 1
+                ex.failures += fails
         for part in runner.parallel(chunk, payloads):
             ex.merge(part)
         done = set()
         keep = []
         for f in ex.failures:
-            key = (f.kind, f.what)
+            key = (f.kind, f.what, f.signature)
             if key in done:
                 continue
             done.add(key)
-            f.case = runner.shrink(f.case, self.fails_like(f.kind, f.what), feat.shrink_steps)
+            f.case = runner.shrink(f.case, self.fails_like(f.kind, f.what, f.signature), feat.shrink_steps)
             self.annotate(f)
             keep.append(f)
         # monitor failures first so that the replay shows the property failing
@@ -231,17 +254,19 @@ class C19(runner.Check):
     def rejudge(self, case):
         return run_cases(case['stream'], [case['desc']])[0][0]
 
-    def fails_like(self, kind, what):
+    def fails_like(self, kind, what, signature=None):
         def f(case):
-            return any(x.kind == kind and x.what == what for x in self.rejudge(case))
+            return any(x.kind == kind and x.what == what and (signature is None or x.signature == signature)
+                       for x in self.rejudge(case))
         return f
 
     def annotate(self, f):
         for x in self.rejudge(f.case):
-            if x.kind == f.kind and x.what == f.what:
+            if x.kind == f.kind and x.what == f.what and x.signature == f.signature:
                 f.details = x.details
                 break
         try:
+            f.case = dict(f.case, desc=feat.normalise(f.case['desc']))
             run = feat.execute(f.case['desc'])
             f.details['impl_steps'] = [{'trigger': t, 'result': s['result'],
                                         'log': [repr(i) for i in s['items']], 'post': repr(s['post'])}
@@ -255,7 +280,7 @@ class C19(runner.Check):
         for part in runner.parallel(chunk, payloads):
             found += [f for f in part.failures if f.kind == 'monitor']
         for f in found[:1]:
-            f.case = runner.shrink(f.case, self.fails_like(f.kind, f.what), feat.shrink_steps)
+            f.case = runner.shrink(f.case, self.fails_like(f.kind, f.what, f.signature), feat.shrink_steps)
             self.annotate(f)
         return found
 
@@ -266,6 +291,7 @@ class C19(runner.Check):
             print('no concrete input in this replay file: broken obligation', payload.get('broken_obligation'))
             return 1
         case = payload['case']
+        case = dict(case, desc=feat.normalise(case['desc']))
         d = case['desc']
         print('class %s decorated with %s, probe=%s' % (d['cls'], d['feats'], d['probe']))
         run = feat.execute(d)
